@@ -191,6 +191,7 @@ fn check_text(t: &str) -> Result<(), String> {
         if wl2 != wl {
             return Err(format!("struct containing {t:?} does not round-trip"));
         }
+        check_refusal(t)?;
         Ok(())
     })
 }
@@ -461,6 +462,72 @@ fn check_bytes(b: &[u8]) -> Result<(), String> {
     })
 }
 
+// ---- allocator refusal for the integrations (the crate's allocator calls go through the verif-hooks table) ----
+thread_local! {
+    static REFUSE: std::cell::Cell<bool> = const { std::cell::Cell::new(false) };
+    static REFUSED: std::cell::Cell<u64> = const { std::cell::Cell::new(0) };
+}
+unsafe fn rf_alloc(l: std::alloc::Layout) -> *mut u8 {
+    if REFUSE.with(|c| c.get()) {
+        REFUSED.with(|c| c.set(c.get() + 1));
+        return std::ptr::null_mut();
+    }
+    unsafe { std::alloc::alloc(l) }
+}
+unsafe fn rf_realloc(p: *mut u8, l: std::alloc::Layout, n: usize) -> *mut u8 {
+    if REFUSE.with(|c| c.get()) {
+        REFUSED.with(|c| c.set(c.get() + 1));
+        return std::ptr::null_mut();
+    }
+    unsafe { std::alloc::realloc(p, l, n) }
+}
+unsafe fn rf_dealloc(p: *mut u8, l: std::alloc::Layout) {
+    unsafe { std::alloc::dealloc(p, l) }
+}
+fn rf_note(_: lean_string::verif_hooks::Note, _: *const u8, _: usize) {}
+static RF_HOOKS: lean_string::verif_hooks::Hooks =
+    lean_string::verif_hooks::Hooks { alloc: rf_alloc, realloc: rf_realloc, dealloc: rf_dealloc, note: rf_note };
+
+/// Runs `f` with every allocator request of the crate refused. Ok(Some(x)): `f` produced x; Ok(None): it panicked or
+/// reported an error (both are fine: nothing was yielded); the second component says whether a request was refused.
+fn refused<T>(f: impl FnOnce() -> Option<T>) -> (Option<T>, bool) {
+    let before = REFUSED.with(|c| c.get());
+    REFUSE.with(|c| c.set(true));
+    let r = std::panic::catch_unwind(std::panic::AssertUnwindSafe(f));
+    REFUSE.with(|c| c.set(false));
+    let hit = REFUSED.with(|c| c.get()) > before;
+    (r.ok().flatten(), hit)
+}
+
+/// With the allocator refusing, an integration may fail (panic or error) but must not yield a different text.
+fn check_refusal(t: &str) -> Result<(), String> {
+    let (a, _) = refused(|| LeanString::arbitrary_take_rest(Unstructured::new(t.as_bytes())).ok());
+    if let Some(x) = a {
+        if x.as_str() != t {
+            return Err(format!("allocator refusing: arbitrary_take_rest yields {:?} where <&str> yields {t:?}", x.as_str()));
+        }
+    }
+    let (a, _) = refused(|| {
+        let d: Result<LeanString, ValueError> = LeanString::deserialize(StrDeserializer::new(t));
+        d.ok()
+    });
+    if let Some(x) = a {
+        if x.as_str() != t {
+            return Err(format!("allocator refusing: deserialised {:?} from the str {t:?}", x.as_str()));
+        }
+    }
+    let (a, _) = refused(|| {
+        let d: Result<LeanString, ValueError> = LeanString::deserialize(BytesDeserializer::new(t.as_bytes()));
+        d.ok()
+    });
+    if let Some(x) = a {
+        if x.as_str() != t {
+            return Err(format!("allocator refusing: deserialised {:?} from the bytes of {t:?}", x.as_str()));
+        }
+    }
+    Ok(())
+}
+
 fn check_unstructured(seed: &[u8]) -> Result<(), String> {
     guard(|| {
         let mut u1 = Unstructured::new(seed);
@@ -494,6 +561,23 @@ fn check_unstructured(seed: &[u8]) -> Result<(), String> {
         for d in 0..4 {
             if <LeanString as Arbitrary>::size_hint(d) != <&str as Arbitrary>::size_hint(d) {
                 return Err(format!("size_hint({d}) differs from <&str>::size_hint"));
+            }
+        }
+        // the same draws with the crate's allocator refusing: no text, or the same text, never another one
+        if let Ok(y) = <&str as Arbitrary>::arbitrary(&mut Unstructured::new(seed)) {
+            let (a, _) = refused(|| LeanString::arbitrary(&mut Unstructured::new(seed)).ok());
+            if let Some(x) = a {
+                if x.as_str() != y {
+                    return Err(format!("allocator refusing: arbitrary on seed {} yields {:?}, <&str>::arbitrary {y:?}", hex_encode(seed), x.as_str()));
+                }
+            }
+        }
+        if let Ok(y) = <&str as Arbitrary>::arbitrary_take_rest(Unstructured::new(seed)) {
+            let (a, _) = refused(|| LeanString::arbitrary_take_rest(Unstructured::new(seed)).ok());
+            if let Some(x) = a {
+                if x.as_str() != y {
+                    return Err(format!("allocator refusing: arbitrary_take_rest on seed {} yields {:?}, <&str> {y:?}", hex_encode(seed), x.as_str()));
+                }
             }
         }
         Ok(())
@@ -734,6 +818,7 @@ fn main() -> ExitCode {
     let args: Vec<String> = std::env::args().collect();
     let seed: u64 = std::env::var("VERIF_SEED").ok().and_then(|s| s.parse().ok()).unwrap_or(0);
     lsv_core::outcome::silence_panics();
+    lean_string::verif_hooks::install(&RF_HOOKS);
     match args.get(1).map(|s| s.as_str()) {
         Some("run") => {
             let tier = if args.iter().any(|a| a == "thorough") { Tier::Thorough } else { Tier::Quick };
